@@ -398,4 +398,16 @@ Section C02Model.
     one / (lsum (fun r => r * r) rmsds / nofnat (length rmsds)).
   Definition cv_apath (lambda : T) (qs : list Q4) (frames : list (list V3)) (g : list atom) : T * T :=
     apath_sz lambda (map (fun qf => frame_wsd (fst qf) (snd qf) g) (combine qs frames)).
+  (* ---------------------------------------------------------------- pair lists of selfCoordNum and of coordNum with
+     group2CenterOnly: the same flag/skip logic over another enumeration of position pairs *)
+  Definition pl_build_pts (r0 : T) (r0v : option V3) (en ed : Z) (tol : T) (cell : option V3) (pts : list (V3 * V3)) : list bool :=
+    map (fun pr => nltb O (nneg O (tol * nhalf O)) (switching_raw r0 r0v en ed tol cell (fst pr) (snd pr))) pts.
+  Definition pl_value_pts (pl : list bool) (r0 : T) (r0v : option V3) (en ed : Z) (tol : T) (cell : option V3) (pts : list (V3 * V3)) : T :=
+    lsum (fun t : bool * (V3 * V3) => if fst t then switching r0 r0v en ed tol cell (fst (snd t)) (snd (snd t)) else zero)
+         (combine pl pts).
+  (* selfCoordNum: pairs i < j in loop order *)
+  Fixpoint self_pts (l : list atom) : list (V3 * V3) :=
+    match l with [] => [] | a :: r => map (fun b => (a_pos a, a_pos b)) r ++ self_pts r end.
+  (* group2CenterOnly: every atom of group1 with the centre of mass of group2 *)
+  Definition center_pairs (g1 g2 : list atom) : list (V3 * V3) := let c := com g2 in map (fun a => (a_pos a, c)) g1.
 End C02Model.
